@@ -1302,9 +1302,11 @@ fn filter_text_strikeout(s: &str) -> Option<String> {
     let mut result = String::new();
     for c in s.chars() {
         result.push(c);
-        if UnicodeWidthChar::width(c).unwrap_or(0) > 0 {
+        if !c.is_whitespace() && UnicodeWidthChar::width(c).unwrap_or(0) > 0 {
             // This is a character with width (not a combining or other character)
-            // so add a strikethrough combiner.
+            // so add a strikethrough combiner.  Whitespace is left alone: a combining
+            // mark after a space is a zero-width word of its own, which would stop
+            // whitespace from collapsing and from being dropped at line ends.
             result.push('\u{336}');
         }
     }
